@@ -505,7 +505,7 @@ func genC17(c *lp.Ctx) {
 	for _, run := range []int{100, 1000, 4000}[:c.Pick(2, 3)] {
 		grid = append(grid, gen.GroupsOf64(c.Rng, run))
 	}
-	for _, first := range []int{50, 100, 200} {
+	for _, first := range []int{50, 100, 200, 60, 120} {
 		grid = append(grid, gen.WideThenThin(c.Rng, first))
 	}
 	for it := 0; it < n+len(grid); it++ {
